@@ -39,15 +39,21 @@ func ruleBigWrappers(w *World, r *RuleResult) {
 			continue
 		}
 		name := w.shortName(f)
-		key := name + " | delegates to big.Int." + f.Name()
-		if why := bigNoCounterpart[f.Name()]; why != "" && f.Name() != "Sign" {
+		apiName := f.Name()
+		key := name + " | delegates to big.Int." + apiName
+		if why := bigNoCounterpart[apiName]; why != "" && apiName != "Sign" {
 			r.ok(key, w.pos(f.Pos()), "tabled: "+why, false)
 			continue
 		}
-		if !w.bigIntHasMethod(f.Name()) {
+		if !w.bigIntHasMethod(apiName) {
 			// not a mirror of a math/big method (a convenience composed from the wrappers): nothing to agree with
 			r.ok(key, w.pos(f.Pos()), "math/big.Int has no method of this name: not part of the mirrored API", false)
 			continue
+		}
+		// the slow path may live in an unexported helper that is handed the receiver and the parameters as
+		// they are (a fast path stays in the exported method)
+		if h := w.forwardTarget(f, apiName); h != nil {
+			f = h
 		}
 		var calls []*ssa.Call
 		for _, c := range callsIn(f) {
@@ -57,9 +63,15 @@ func ruleBigWrappers(w *World, r *RuleResult) {
 		}
 		var same *ssa.Call
 		var others []string
+		deadDistinct, _ := deadAssumingDistinct(f, func(int, int) bool { return true })
 		for _, c := range calls {
 			m := strings.TrimPrefix(w.calleeName(c), "(*math/big.Int).")
-			if m == f.Name() {
+			if _, local := c.Common().Args[0].(*ssa.Alloc); local && m == "Set" && deadDistinct[c.Block()] {
+				// a private copy of a view into a local big.Int, made only where two parameters are one
+				// object (math/big does the same for the aliasings it knows about)
+				continue
+			}
+			if m == apiName {
 				if same != nil {
 					others = append(others, "more than one call of big.Int."+m)
 				}
@@ -69,7 +81,7 @@ func ruleBigWrappers(w *World, r *RuleResult) {
 			}
 		}
 		if same == nil {
-			r.bad(key, w.pos(f.Pos()), "the slow path does not call big.Int."+f.Name()+" ("+strings.Join(others, ", ")+"): results differ from math/big")
+			r.bad(key, w.pos(f.Pos()), "the slow path does not call big.Int."+apiName+" ("+strings.Join(others, ", ")+"): results differ from math/big")
 			continue
 		}
 		var bad []string
@@ -84,7 +96,7 @@ func ruleBigWrappers(w *World, r *RuleResult) {
 				}
 			}
 			if !onRecv {
-				bad = append(bad, "big.Int."+f.Name()+" is not invoked on the receiver's view")
+				bad = append(bad, "big.Int."+apiName+" is not invoked on the receiver's view")
 			}
 		}
 		// parameters in order
@@ -96,7 +108,7 @@ func ruleBigWrappers(w *World, r *RuleResult) {
 				if isBigIntPtr(p.Type()) {
 					// when all parameters are distinct objects (the branches taken only for p == q pruned)
 					// the argument is the view of its own parameter
-					dead, deadE := deadAssumingDistinct(f, func(int, int) bool { return true })
+					dead, deadE := deadDistinctNonNil(f)
 					okView := true
 					leaves := liveLeaves(args[i], dead, deadE, 0)
 					for _, l := range leaves {
@@ -160,7 +172,7 @@ func ruleBigWrappers(w *World, r *RuleResult) {
 				}
 			}
 			if !okRes {
-				bad = append(bad, fmt.Sprintf("result %d of big.Int.%s is not what the slow path returns", i, f.Name()))
+				bad = append(bad, fmt.Sprintf("result %d of big.Int.%s is not what the slow path returns", i, apiName))
 			}
 		}
 		if len(bad) > 0 {
@@ -617,4 +629,85 @@ func inlinePairs(sig *types.Signature) [][2]int {
 		}
 	}
 	return out
+}
+
+// deadDistinctNonNil: blocks and edges of f that are dead when all its parameters are different, non-nil objects.
+func deadDistinctNonNil(f *ssa.Function) (map[*ssa.BasicBlock]bool, map[[2]int]bool) {
+	pidx := func(v ssa.Value) int {
+		for k, q := range f.Params {
+			if ssa.Value(q) == v {
+				return k
+			}
+		}
+		return -1
+	}
+	return deadUnder(f, func(bo *ssa.BinOp) (bool, bool) {
+		x, y := pidx(bo.X), pidx(bo.Y)
+		eq := false
+		switch {
+		case x >= 0 && y >= 0:
+			eq = x == y
+		case x >= 0 && isNilConst(bo.Y), y >= 0 && isNilConst(bo.X):
+			eq = false
+		default:
+			return false, false
+		}
+		return eq == (bo.Op == token.EQL), true
+	})
+}
+
+// forwardTarget: f itself does not call math/big's method of the given name, but calls an unexported function
+// of the package with exactly its own parameters, in order, which does: that function.
+func (w *World) forwardTarget(f *ssa.Function, method string) *ssa.Function {
+	for _, c := range callsIn(f) {
+		if cc, ok := c.(*ssa.Call); ok && w.calleeName(cc) == "(*math/big.Int)."+method {
+			return nil
+		}
+	}
+	for _, c := range callsIn(f) {
+		cc, ok := c.(*ssa.Call)
+		if !ok {
+			continue
+		}
+		h := callee(cc)
+		if h == nil || !w.inPkg(h) || h == f || len(h.Blocks) == 0 || (h.Object() != nil && h.Object().Exported()) || len(h.Params) != len(f.Params) || len(cc.Common().Args) != len(f.Params) {
+			continue
+		}
+		same := true
+		for i, a := range cc.Common().Args {
+			if a != ssa.Value(f.Params[i]) {
+				same = false
+			}
+		}
+		if !same {
+			continue
+		}
+		for _, hc := range callsIn(h) {
+			if x, ok := hc.(*ssa.Call); ok && w.calleeName(x) == "(*math/big.Int)."+method {
+				return h
+			}
+		}
+	}
+	return nil
+}
+
+// wrapperMethod: the math/big method name f is the BigInt wrapper of: its own name, or — for the forwarded slow
+// path of an exported wrapper — that wrapper's name.
+func (w *World) wrapperMethod(f *ssa.Function) string {
+	if w.fwdMemo == nil {
+		w.fwdMemo = map[*ssa.Function]string{}
+		for _, g := range w.Funcs {
+			recv := g.Signature.Recv()
+			if recv == nil || w.apdTypeName(recv.Type()) != "BigInt" || g.Object() == nil || !g.Object().Exported() {
+				continue
+			}
+			if h := w.forwardTarget(g, g.Name()); h != nil {
+				w.fwdMemo[h] = g.Name()
+			}
+		}
+	}
+	if n, ok := w.fwdMemo[f]; ok {
+		return n
+	}
+	return f.Name()
 }
